@@ -213,6 +213,8 @@ impl Diff {
             "effects" => Cfg::effects(),
             _ => Cfg::scalar(),
         };
+        // a third of the entry points are filtermaps (accept / reject with payloads)
+        cfg.filtermap_main = true;
         if !args.flag("no-avoid") {
             // zero-sized tracked values are never cloned/dropped by compiled code
             // (known finding C03/zst-elided); the witnesses keep exercising it
